@@ -22,7 +22,7 @@ for d in sorted(glob.glob(os.path.join(out, "m*"))):
     rc, o = sh("git apply %s/patch.diff" % d, cwd=R)
     if rc != 0:
         print("%s: patch does not apply: %s" % (name, o[:200])); continue
-    pinned = sh("python3 /tmp/mut/basecheck.py %s" % R)[1].strip().splitlines()[-1]
+    pinned = sh("python3 %s/tools/basecheck.py %s" % (V, R))[1].strip().splitlines()[-1]
     results = {}
     for pid in pids:
         e2 = dict(env, VERIF_REPO=R)
